@@ -10,6 +10,7 @@ state that the hand-written model of `AddDivide.lean` — the one every `C03_…
 exactly those decisions, for every definition unit, every requested unit and every size.  They are
 re-checked against what the code says now: a changed branch re-states them.
 -/
+set_option linter.unusedSimpArgs false
 namespace OFCore
 open OFCore.Generated
 
@@ -20,9 +21,9 @@ theorem C03_tie_check_period_consistency (du : DUnit) (p : Period) :
   obtain ⟨pu, st, sz⟩ := p
   by_cases h : sz = 1
   · subst h; cases du <;> cases pu <;>
-      simp [checkPeriodConsistency, Guards.checkPeriodConsistency_raises, Except.toBool]
+      simp [Tie.consistencyGuards, Tie.holderSetGuards, Tie.addGuards, Tie.divideGuards, Tie.dated, Tie.enclosingName, Tie.denominatorName, checkPeriodConsistency, Guards.checkPeriodConsistency_raises, Except.toBool]
   · cases du <;> cases pu <;>
-      simp [checkPeriodConsistency, Guards.checkPeriodConsistency_raises, Except.toBool, h]
+      simp [Tie.consistencyGuards, Tie.holderSetGuards, Tie.addGuards, Tie.divideGuards, Tie.dated, Tie.enclosingName, Tie.denominatorName, checkPeriodConsistency, Guards.checkPeriodConsistency_raises, Except.toBool, h]
 
 /-- `Holder._set`: the model's store check accepts exactly when none of the code's guards raises -/
 theorem C03_tie_holder_set (du : DUnit) (p : Period) :
@@ -30,9 +31,9 @@ theorem C03_tie_holder_set (du : DUnit) (p : Period) :
   obtain ⟨pu, st, sz⟩ := p
   by_cases h : sz > 1
   · cases du <;> cases pu <;>
-      simp [holderStoreCheck, Guards.holderSet_raises, Except.toBool, h]
+      simp [Tie.consistencyGuards, Tie.holderSetGuards, Tie.addGuards, Tie.divideGuards, Tie.dated, Tie.enclosingName, Tie.denominatorName, holderStoreCheck, Guards.holderSet_raises, Except.toBool, h]
   · cases du <;> cases pu <;>
-      simp [holderStoreCheck, Guards.holderSet_raises, Except.toBool, h]
+      simp [Tie.consistencyGuards, Tie.holderSetGuards, Tie.addGuards, Tie.divideGuards, Tie.dated, Tie.enclosingName, Tie.denominatorName, holderStoreCheck, Guards.holderSet_raises, Except.toBool, h]
 
 /-- `calculate_add`: whenever one of the code's three guards raises, the model refuses -/
 theorem C03_tie_calculate_add_refuses (val : Period → Int) (store : Bool) (du : DUnit) (p : Period)
@@ -40,7 +41,7 @@ theorem C03_tie_calculate_add_refuses (val : Period → Int) (store : Bool) (du 
     ∃ e, calcAdd val store du p = .error e := by
   obtain ⟨pu, st, sz⟩ := p
   cases du <;> cases pu <;> revert h <;>
-    simp [Guards.calculateAdd_raises, calcAdd, isDated, unitWeight, Generated.unitWeightTable,
+    simp [Tie.consistencyGuards, Tie.holderSetGuards, Tie.addGuards, Tie.divideGuards, Tie.dated, Tie.enclosingName, Tie.denominatorName, Guards.calculateAdd_raises, calcAdd, isDated, unitWeight, Generated.unitWeightTable,
       Generated.isoformatUnits, Generated.isocalendarUnits, DUnit.name, List.lookup]
 
 /-- `calculate_add`: when none of them raises, the model sums the variable over the sub-periods -/
@@ -52,7 +53,7 @@ theorem C03_tie_calculate_add_serves (val : Period → Int) (store : Bool) (du :
       .ok vs.sum) := by
   obtain ⟨pu, st, sz⟩ := p
   cases du <;> cases pu <;> revert h <;>
-    simp [Guards.calculateAdd_raises, calcAdd, isDated, unitWeight, Generated.unitWeightTable,
+    simp [Tie.consistencyGuards, Tie.holderSetGuards, Tie.addGuards, Tie.divideGuards, Tie.dated, Tie.enclosingName, Tie.denominatorName, Guards.calculateAdd_raises, calcAdd, isDated, unitWeight, Generated.unitWeightTable,
       Generated.isoformatUnits, Generated.isocalendarUnits, DUnit.name, List.lookup]
 
 /-- `calculate_divide`: whenever one of the code's three guards raises, the model refuses -/
@@ -63,14 +64,14 @@ theorem C03_tie_calculate_divide_refuses (val : Period → Int) (store : Bool) (
   by_cases h1 : sz = 1
   · subst h1
     cases du <;> cases pu <;> revert h <;>
-      simp [Guards.calculateDivide_raises, calcDivide, isDated, unitWeight, Generated.unitWeightTable,
+      simp [Tie.consistencyGuards, Tie.holderSetGuards, Tie.addGuards, Tie.divideGuards, Tie.dated, Tie.enclosingName, Tie.denominatorName, Guards.calculateDivide_raises, calcDivide, isDated, unitWeight, Generated.unitWeightTable,
         Generated.isoformatUnits, Generated.isocalendarUnits, DUnit.name, List.lookup]
   · by_cases h2 : sz > 1
     · cases du <;> cases pu <;>
-        simp [calcDivide, isDated, unitWeight, Generated.unitWeightTable,
+        simp [Tie.consistencyGuards, Tie.holderSetGuards, Tie.addGuards, Tie.divideGuards, Tie.dated, Tie.enclosingName, Tie.denominatorName, calcDivide, isDated, unitWeight, Generated.unitWeightTable,
           Generated.isoformatUnits, Generated.isocalendarUnits, DUnit.name, List.lookup, h1, h2]
     · cases du <;> cases pu <;>
-        simp [calcDivide, isDated, unitWeight, Generated.unitWeightTable,
+        simp [Tie.consistencyGuards, Tie.holderSetGuards, Tie.addGuards, Tie.divideGuards, Tie.dated, Tie.enclosingName, Tie.denominatorName, calcDivide, isDated, unitWeight, Generated.unitWeightTable,
           Generated.isoformatUnits, Generated.isocalendarUnits, DUnit.name, List.lookup, h1, h2]
 
 /-- `calculate_divide`: when none raises, the model computes the variable for the period the code
@@ -87,14 +88,14 @@ theorem C03_tie_calculate_divide_serves (val : Period → Int) (store : Bool) (d
   by_cases h1 : sz = 1
   · subst h1
     cases du <;> cases pu <;> revert h <;>
-      simp [Guards.calculateDivide_raises, Guards.calculateDivide_period, Guards.calculateDivide_denominator,
+      simp [Tie.consistencyGuards, Tie.holderSetGuards, Tie.addGuards, Tie.divideGuards, Tie.dated, Tie.enclosingName, Tie.denominatorName, Guards.calculateDivide_raises, Guards.calculateDivide_period, Guards.calculateDivide_denominator,
         calcDivide, enclosing, denominator, Tie.namedPeriod, Tie.namedSize,
         isDated, unitWeight, Generated.unitWeightTable,
         Generated.isoformatUnits, Generated.isocalendarUnits, DUnit.name, List.lookup]
   · exfalso
     revert h
     cases du <;> cases pu <;>
-      simp [Guards.calculateDivide_raises, isDated, unitWeight, Generated.unitWeightTable,
+      simp [Tie.consistencyGuards, Tie.holderSetGuards, Tie.addGuards, Tie.divideGuards, Tie.dated, Tie.enclosingName, Tie.denominatorName, Guards.calculateDivide_raises, isDated, unitWeight, Generated.unitWeightTable,
         Generated.isoformatUnits, Generated.isocalendarUnits, DUnit.name, List.lookup, h1]
 
 -- non-vacuity: a request the code serves and one it refuses
